@@ -53,6 +53,14 @@ def base_and_mode(text):
     elif words[:1] and words[0] == "digits": mode = "digits"
     return base, mode
 
+def _approx(q):
+    """a float for a message, whatever the size of the fraction"""
+    try:
+        return float(q)
+    except OverflowError:
+        return float("inf") if q > 0 else float("-inf")
+
+
 def judge_text(impl, shown):
     """the text the user sees (`n u w` rendering) must carry what the fields say: the numeral, the
     constant factor / divisor of the conversion target, and every unit name with its power"""
@@ -75,24 +83,30 @@ def judge_line(text, impl, aux, lk):
     if f["raw"] == "float" and impl.split(" ")[1] == "conv" and aux and aux.get("top") not in (None, "float") and "->" in text:
         # a machine-float ratio (a fractional power in the target): numeral x factor x unit is the quantity to 1e-5
         names = parse_dims(f["rawunit"]) if f["rawunit"] != "none" else {}
-        K = 1.0
+        K = Fraction(1)
         for n, p in names.items():
             e = lk.get(n)
             if e is None or e["v"] == "float":
                 return None
-            K *= float(frac(e["v"])) ** p
+            uv = frac(e["v"])
+            if uv == 0 and p < 0:
+                return None
+            K *= uv ** p
         if unhexs(f["factor"]): K *= int(unhexs(f["factor"]))
         if unhexs(f["div"]): K /= int(unhexs(f["div"]))
         t = unhexs(f["approx"]) or unhexs(f["exact"])
         import re
-        m = re.match(r"^(-?[0-9]+(?:\.[0-9]+)?)(?:e(-?[0-9]+))?$", t or "")
+        m = re.match(r"^(-?[0-9]+)(?:\.([0-9]+))?(?:e(-?[0-9]+))?$", t or "")
         base, _ = base_and_mode(text)
         if not m or base != 10:
             return None
-        v = float(m.group(1)) * (10.0 ** int(m.group(2)) if m.group(2) else 1.0)
-        want = float(frac(aux["top"]))
-        if want != 0 and abs(v * K - want) > 1e-4 * abs(want):
-            return "approximate numeral %r x factor x unit = %g, the quantity is %g" % (t, v * K, want)
+        v = Fraction(int(m.group(1) + (m.group(2) or "")), 10 ** len(m.group(2) or "")) * Fraction(10) ** int(m.group(3) or 0)
+        want = frac(aux["top"])
+        # (a machine float underflows below 1e-300 and overflows above 1e300: such ratios are not judged)
+        if K == 0 or want == 0 or not (Fraction(1, 10 ** 300) < abs(want / K) < Fraction(10 ** 300)) or not (Fraction(1, 10 ** 300) < abs(K) < Fraction(10 ** 300)):
+            return None
+        if abs(v * K - want) > abs(want) / 10000:
+            return "approximate numeral %r x factor x unit = %.6g, the quantity is %.6g" % (t, _approx(v * K), _approx(want))
         return None
     if f["raw"] in ("none", "float") or f["raw"] is None:
         return None
